@@ -46,7 +46,7 @@ def narrow_ctx(rng, t, u):
             lambda: ('bin', '=', ('call', 'len', [u]), int_lit(1)),
             lambda: ('bin', 'in', int_lit(1), u),
             lambda: ('bin', '=', ('index', u, int_lit(0)), int_lit(1)),
-            lambda: ('quant', 'all', 'k', u, ('bin', '>', ('var', 'k'), int_lit(0))),
+            lambda: ('quant', 'all', 'kk', u, ('bin', '>', ('var', 'kk'), int_lit(0))),
         ])()
     if t == 'msg':
         return ('bin', '=', ('field', u, 'f'), int_lit(1))
@@ -97,13 +97,13 @@ def ref_clash(rng):
     for p in parts[1:]:
         e = ('bin', rng.choice(['and', 'and', 'or']), e, p)
     if rng.random() < 0.3:
-        e = ('bin', 'and', Gen(rng, max_depth=2).expr(BOOL), e)
+        e = ('bin', 'and', Gen(rng, max_depth=2, var_pool=['n1', 'n2', 'n3']).expr(BOOL), e)
     return e, f'ref-clash:{t1}/{t2}:wide={n_between}'
 
 
 def position_clash(rng):
     """(raw, tag): a literal or operator/function result of the wrong type in an argument position"""
-    g = Gen(rng, max_depth=2)
+    g = Gen(rng, max_depth=2, var_pool=['n1', 'n2', 'n3'])
     wrong_for_num = [TRUE, str_lit('s'), ('bin', '>', int_lit(1), int_lit(0)), ('call', 'str', [int_lit(1)]), ('set', [int_lit(1)])]
     wrong_for_bool = [int_lit(1), str_lit('s'), ('bin', '+', int_lit(1), int_lit(2)), ('call', 'len', [('field', ('this',), 'xs')]), ('range', int_lit(0), int_lit(1), False, False)]
     wrong_for_compound = [int_lit(1), TRUE, str_lit('abc'), ('bin', '+', int_lit(1), int_lit(2))]
@@ -126,10 +126,10 @@ def position_clash(rng):
         ('set-element', lambda w: ('bin', 'in', x, ('set', [int_lit(1), w])), wrong_for_prim),
         ('in-right', lambda w: ('bin', 'in', x, w), [int_lit(1), TRUE, str_lit('abc')]),
         ('in-left', lambda w: ('bin', 'in', w, ('field', ('this',), 'xs')), wrong_for_prim),
-        ('quantifier-domain', lambda w: ('quant', rng.choice(['all', 'some']), 'k', w, ('bin', '>', ('var', 'k'), int_lit(0))), [int_lit(1), TRUE, str_lit('abc')]),
-        ('quantifier-condition', lambda w: ('quant', 'all', 'k', ('field', ('this',), 'xs'), ('bin', '+', ('var', 'k'), w)), [int_lit(1)]),
-        ('quantifier-variable', lambda w: ('quant', 'all', 'k', ('set', [int_lit(1), int_lit(2)]), ('bin', 'and', ('var', 'k'), b)), [None]),
-        ('quantifier-variable-range', lambda w: ('quant', 'some', 'k', ('range', int_lit(0), int_lit(3), False, False), ('bin', '=', ('var', 'k'), str_lit('a'))), [None]),
+        ('quantifier-domain', lambda w: ('quant', rng.choice(['all', 'some']), 'kk', w, ('bin', '>', ('var', 'kk'), int_lit(0))), [int_lit(1), TRUE, str_lit('abc')]),
+        ('quantifier-condition', lambda w: ('quant', 'all', 'kk', ('field', ('this',), 'xs'), ('bin', '+', ('var', 'kk'), w)), [int_lit(1)]),
+        ('quantifier-variable', lambda w: ('quant', 'all', 'kk', ('set', [int_lit(1), int_lit(2)]), ('bin', 'and', ('var', 'kk'), b)), [None]),
+        ('quantifier-variable-range', lambda w: ('quant', 'some', 'kk', ('range', int_lit(0), int_lit(3), False, False), ('bin', '=', ('var', 'kk'), str_lit('a'))), [None]),
         ('field-of-non-message', lambda w: ('bin', '=', ('field', w, 'f'), int_lit(1)), [('index', ('field', ('this',), 'xs'), int_lit(0))] if False else [None]),
         ('index-not-number', lambda w: ('bin', '=', ('index', ('field', ('this',), 'xs'), w), int_lit(1)), [TRUE, str_lit('s'), ('bin', '>', int_lit(1), int_lit(0))]),
         ('equality-literals', lambda w: ('bin', rng.choice(['=', '!=']), int_lit(1), w), [TRUE, str_lit('1')]),
@@ -152,3 +152,30 @@ def position_clash(rng):
 
 def inject(rng):
     return ref_clash(rng) if rng.random() < 0.5 else position_clash(rng)
+
+
+def bool_positions(r, path=()):
+    """paths to the boolean argument positions of a Raw boolean term (root, operands of connectives, quantifier conditions)"""
+    out = [path]
+    k = r[0]
+    if k == 'bin' and r[1] in ('and', 'or', 'implies', 'iff'):
+        out += bool_positions(r[2], path + (2,)) + bool_positions(r[3], path + (3,))
+    elif k == 'un' and r[1] == 'not':
+        out += bool_positions(r[2], path + (2,))
+    elif k == 'quant':
+        out += bool_positions(r[4], path + (4,))
+    return out
+
+
+def _replace(r, path, f):
+    if not path:
+        return f(r)
+    i = path[0]
+    return r[:i] + (_replace(r[i], path[1:], f),) + r[i + 1:]
+
+
+def embed(rng, host, clash):
+    """the well-typed boolean `host` with `clash` joined to the sub-term at one of its boolean positions (at any depth)"""
+    path = rng.choice(bool_positions(host))
+    op = rng.choice(['and', 'and', 'or', 'implies', 'iff'])
+    return _replace(host, path, lambda t: ('bin', op, t, clash) if rng.random() < 0.5 else ('bin', op, clash, t)), len(path)
